@@ -53,7 +53,7 @@ def oracle(case):
         for name, want in case['expected_mass'].items():
             got = smp.fragment_masses.get(name)
             natoms = len(smp.fragment_dict[name])
-            tol = 0.02 * (natoms * 4 + 1)
+            tol = 0.006 * (natoms * 4 + 1)      # rounding of the atomic mass tables, far below one hydrogen
             expect(got is not None and abs(got - want) <= tol, 'sampler:fragment-mass',
                    lambda: 'mass of %s is %r, expected %.3f (sum of atomic masses incl. hydrogens)' % (name, got, want))
     if smp is not None and case['masses'] is not None:
@@ -244,6 +244,10 @@ def extra(tier, seed, col):
             report_multiple_bugs=False, print_blob=False))
     except AssertionError:
         pass
+    except BaseException as e:
+        from ..runner import is_flaky
+        if not (failures and is_flaky(e)):
+            raise
     if failures:
         log = failures[-1]
         col.record_failure('sampler:history-dependent', 'a construct(seed)+sample pair gives a different molecule depending on what ran before',
